@@ -1095,7 +1095,6 @@ func (p *Prog) guardLeadsToError(f *Func, guard func(Fact) bool, sentinel string
 	return true
 }
 
-
 // holdsRec: a disjunct of a family condition (helper of R19.11).
 func holdsRec(cond ast.Expr, c string, isElem func(ast.Expr) bool, p *Prog, isV4 map[string]bool) (bool, bool) {
 	cond = unparen(cond)
